@@ -57,9 +57,9 @@ def overlay_map():
 PARAMS = {
     #            mc cfg            mc timeout  sim num depth   gen histories len   K
     "quick":    (["IRCMC_small.cfg"], 300,     150, 22,         90, 45,           3),
-    "thorough": (["IRCMC_small.cfg", "IRCMC_deep.cfg"], 3000, 1500, 30, 900, 60,  5),
+    "thorough": (["IRCMC_small.cfg", "IRCMC_deep.cfg"], 3000, 1500, 30, 600, 60,  5),
 }
-FANOUT = {"quick": 4, "thorough": 1}     # fan-out probes from the final state of every n-th history
+FANOUT = {"quick": 4, "thorough": 3}     # fan-out probes from the final state of every n-th history
 EDGECFG = {"quick": "IRCMC_edges1.cfg", "thorough": "IRCMC_edges2.cfg"
 }
 
